@@ -7,7 +7,7 @@
    Props/C15.v (Ops/TimedSim.v: timers fire exactly at their due time; at equal
    instants the source's notification goes first). *)
 From RxVerif Require Import Base.Prelude Ops.Machine Ops.Multi Ops.MultiFacts Ops.Timed Ops.TimedSim
-  Ops.TimedFacts Ops.TimedWindowFacts Ops.TimedSubFacts Ops.TimedMapperFacts.
+  Ops.TimedFacts Ops.TimedWindowFacts Ops.TimedSubFacts Ops.TimedMapperFacts Ops.TimedSampleFacts.
 
 (* debounce(d) on a conforming timeline, due time dd = max(0, d): an element is
    emitted at t + dd iff the NEXT notification arrives strictly later than t + dd
@@ -45,6 +45,37 @@ Theorem C16_sample_observable_spec : forall A t0 (ins : list (Z * nat * ev A)),
   timed_emits t0 (simulate x_sample_observable t0 (ext2_of ins)) = smp_spec true true false None ins.
 Proof. exact @sample_observable_spec. Qed.
 Print Assumptions C16_sample_observable_spec.
+
+(* the property's sentence for sample(sampler), as a statement about the machine's output: if
+   the element x is emitted at time t, then in the timeline the operator listens to ([heard]:
+   every port up to and including its first terminal notification -- the timeline itself when it
+   is conforming) the source delivered x at some tx, a sampler tick (its on_next or its
+   on_completed) occurs at t, and BETWEEN the two the source delivered no other element (x is
+   the latest) and the sampler did not notify (x had not been sampled yet) *)
+Theorem C16_sample_emits_latest_unsampled : forall A t0 (ins : list (Z * nat * ev A)) t x,
+  In (t, Next x) (timed_emits t0 (simulate x_sample_observable t0 (ext2_of ins))) ->
+  exists pre tx mid e rest,
+    heard true true ins = pre ++ (tx, 0%nat, Next x) :: mid ++ (t, 1%nat, e) :: rest /\
+    is_tick e /\ no_src_next mid /\ no_sampler mid.
+Proof. exact @sample_machine_emits_latest_unsampled. Qed.
+Print Assumptions C16_sample_emits_latest_unsampled.
+
+(* on a timeline that is its own [heard] the decomposition is of the timeline itself; this is
+   the case whenever only ports 0 and 1 occur and no port notifies after its own terminal
+   notification *)
+Theorem C16_sample_emits_latest_unsampled_conforming : forall A t0 (ins : list (Z * nat * ev A)) t x,
+  heard true true ins = ins ->
+  In (t, Next x) (timed_emits t0 (simulate x_sample_observable t0 (ext2_of ins))) ->
+  exists pre tx mid e rest,
+    ins = pre ++ (tx, 0%nat, Next x) :: mid ++ (t, 1%nat, e) :: rest /\
+    is_tick e /\ no_src_next mid /\ no_sampler mid.
+Proof. exact @sample_emits_latest_unsampled_own. Qed.
+Print Assumptions C16_sample_emits_latest_unsampled_conforming.
+
+Theorem C16_conforming_timeline_is_heard : forall A (ins : list (Z * nat * ev A)),
+  port_conforming ins -> heard true true ins = ins.
+Proof. exact @heard_conforming. Qed.
+Print Assumptions C16_conforming_timeline_is_heard.
 
 (* sample(period): the sampler fires at t0 + p, t0 + 2p, ... (p = max(0, period));
    a notification of the source up to and AT a firing instant is seen by that
@@ -105,3 +136,11 @@ Example C16_ex_sample_observable :
                              (5, 0%nat, Next 7); (6, 0%nat, Done); (7, 1%nat, Done)]))
   = [(3, Next 0); (7, Next 7); (7, Done)].
 Proof. vm_compute. reflexivity. Qed.
+
+(* the hypotheses of C16_sample_emits_latest_unsampled(_conforming) hold on the timeline of
+   C16_ex_sample_observable: an element (7 at time 7) is emitted, and the timeline is its own [heard] *)
+Example C16_ex_sample_hyp :
+  let ins := [(1, 0%nat, Next 5); (2, 0%nat, Next 0); (3, 1%nat, Next 9); (4, 1%nat, Next 9);
+              (5, 0%nat, Next 7); (6, 0%nat, Done); (7, 1%nat, Done)] in
+  In (7, Next 7) (timed_emits 0 (simulate x_sample_observable 0 (ext2_of ins))) /\ heard true true ins = ins.
+Proof. vm_compute. split; [tauto|reflexivity]. Qed.
